@@ -165,4 +165,53 @@ PROPS = {
         "exhaustive": False,
         "assumptions": ["f32 DSP is a deterministic function of the component states (same state + same input => same output): holds for safe Rust without interior randomness"],
     },
+    "C13": {
+        "thm": "SameVerif.Thm.C13",
+        "suites": ["sigchunk", "sigc01", "signear"],
+        "spec_filter": r"^spec\.(c13\.calls|sig c13life) ",
+        "technique": "Lean 4 theorems for EVERY per-sample step function about the process()/event-queue/iterator-binding model (drain = queue ++ fold; any partition into bindings, any number of next() calls before dropping a binding: same events, state and sample count; no read-ahead; monotone timestamps) + the same model driven by one-shot traces of the real receiver against real chunked/call-by-call runs",
+        "level_text": "Proved in Lean, generically in the step function (so independent of all DSP): draining a binding yields the queued events followed by exactly the events of folding the step over the samples; splitting the stream into any consecutive chunks/bindings, or dropping a binding after any number of next() calls on a by-reference source, changes neither the event list nor the final state nor the consumed-sample count; a call that returns a freshly generated event has consumed exactly up to the sample that generated it, a call served from the queue consumes nothing, None means the source is exhausted and nothing was generated; timestamps never decrease. "
+                      "Tie: the same Lean `next` driven by the one-shot trace must predict, call by call, the event and input_sample_counter() of the real receiver under random partitions (1-sample chunks, cuts inside preambles, bursts and hold periods) and call schedules mixing iter_events / iter_messages / next()-then-drop; an independent oracle checks the statement's clauses on the recorded calls; the link-event lifecycle is checked on every signal trace.",
+        "level_note": "That the real per-sample processing is a function of the receiver state and the sample (no hidden read-ahead below process()) is what the chunked runs sample.",
+        "rule": "sigchunk: per stream (clean or noisy transmission, several rates) 34 (quick) / 160 (thorough) schedules: 0..40 cut points (random, inside bursts, inside preambles, inside hold periods, 1-3-sample chunks) x per-chunk mode (drain, one event per binding, messages only, mixed patterns). Non-trivial = every schedule; distinct by request text.",
+        "exhaustive": False,
+        "assumptions": [],
+    },
+    "C09": {
+        "thm": "SameVerif.Thm.C09",
+        "suites": ["siglong", "framer"],
+        "spec_filter": r"^spec\.(sig c09|c07\.stream) ",
+        "technique": "Lean 4 invariants and run-level theorem on the receiver glue model (timer armed by every StartOfMessage event, forced EndOfMessage not swallowed by the change filter, every StartOfMessage closed by the first NoCarrier tick after the timeout) + framer length cap/busy bound (C07) + 140 s runs of the real receiver replayed on the models",
+        "level_text": "Proved in Lean on the model of process_transportlayer/process(): every StartOfMessage event arms force_eom_at = sample + 135 s * rate; the timer is cleared only by an EndOfMessage; with the timer armed, the first tick whose link state is NoCarrier and whose sample counter is beyond the timeout emits the EndOfMessage event (an invariant shows the change filter cannot swallow it); run-level: after any prefix, a StartOfMessage at sample p is followed by an EndOfMessage or a newer StartOfMessage no later than the first NoCarrier tick after p + 135 s. With C07.busy_bounded/burst_length_bounded (a framer started once returns to idle within 271 bytes; bursts <= 252 bytes - the repaired defect F2) NoCarrier ticks recur. "
+                      "Tie: 140-second runs of the real receiver after a header (silence, noise, tone, programme, repeated preambles, an endless carrier of valid characters, garbage FSK, endless preamble, further header, late trailer, lone bursts, back-to-back over-long bursts) are replayed tick by tick on the link and transport models and judged by the C09 oracle (closed within 135 s + 6 s, no burst above 252 bytes).",
+        "level_note": "A link that re-synchronises for ever (bit slips every ~34 bits) could postpone NoCarrier indefinitely; the number of re-synchronisations per run is measured (counters.resyncs_bucket) and small for every audio class of the property, not proved.",
+        "rule": "siglong: one case per audio class (quick) / 120 cases over rates (thorough), each >= 141 s after the header. framer: see C07. Non-trivial = every case.",
+        "exhaustive": False,
+        "assumptions": ["NoCarrier ticks recur after the timeout: bounded busy period per start (proved, C07) x bounded number of re-synchronisations (measured)"],
+    },
+    "C14": {
+        "thm": "SameVerif.Thm.C14",
+        "suites": ["sigflush"],
+        "spec_filter": r"^spec\.sig c14 ",
+        "technique": "Lean 4 theorems on the receiver model (a pending result is emitted at the first NoCarrier tick at or after its deadline, under the change filter; 4 s of samples contain more ticks than latency + hold) + close-cut recordings at every rate through the real flush() loop",
+        "level_text": "Proved in Lean: while a result is pending the reported transport state differs from it (invariant), so the change filter passes it; over any run of NoCarrier ticks that reaches the pending deadline the message event is emitted exactly at the first tick with symbol count >= deadline and the slot is emptied (also in the presence of the forced-EOM timer: first or second due tick); arithmetic over the generated constants: if ticks are at most rate/260 samples apart (half the nominal symbol rate - a deliberately weak clock assumption), 4*rate samples contain >= 1040 ticks > 300 + MAX_INTERBURST_SYMBOLS + 1. "
+                      "Sampled on the real receiver: header-only (2 or 3 bursts), full transmissions (2 or 3 trailer bursts) and 252-byte headers, cut at the last sample of the final burst, +1 sample, +2..200 samples and random points up to 2.2 s later, at 3 (quick) / 8 (thorough) rates: messages before the cut plus those from repeated flush() are exactly the transmission's messages, then None twice.",
+        "level_note": "The tick rate on zeros and the release latency L are front-end facts (sampled). The command-line side (prints before exit) is C11.",
+        "rule": "sigflush: rate x {header3, header2, full3, full2, long_header3} x 7 (quick) / 50 (thorough) cut offsets. Non-trivial = every case.",
+        "exhaustive": False,
+        "assumptions": ["FE4: the symbol clock on silence stays above half its nominal rate", "release latency <= 300 ticks (sampled)"],
+    },
+    "C17": {
+        "thm": "SameVerif.Thm.C17",
+        "suites": ["cfgfuzz"],
+        "spec_filter": r"^spec\.c17\.",
+        "technique": "Lean 4 theorem that every integer panic guard reachable from build() holds for all documented configurations and rates >= 8 kHz (after the fix of F1) + correspondence of the derived lengths + product of boundary/random values of all 14 builder parameters through the real build() and a short run under catch_unwind",
+        "level_text": "Proved in Lean for every rate >= 8000, every DC-blocker length including the documented 0.0, the equalizer disabled or with any requested orders: the DC window, the demodulator window and both equalizer windows have length >= 1 and feedback order <= feed-forward order, i.e. every assert!(len > 0), from_identity(len-1) and usize::clamp(_, 1, nff) reachable from build() is satisfied. The derived lengths of the model are compared with the real receiver's (read from its Debug rendering). "
+                      "Sampled: 1500 (quick) / 40000 (thorough) configurations from the product of special values, clamping edges, values beyond the clamps and random values of all parameters x rates 8000..192000, each built and run on a burst under catch_unwind with overflow checks on. The genuine defect F1 (DC length 0.0 panics) found by this check was repaired by a fix: commit.",
+        "level_note": "Float guards (f32::clamp argument order: min <= max for the AGC limits is the documented precondition; NaN is outside 'finite values') are preconditions of the domain, not theorems. The samedec command-line options are exercised in the app suite (C11).",
+        "rule": "cfgfuzz: every parameter drawn from its documented special values, clamping edges, out-of-range values and random values; gain limits incl. zero, negative, equal, 1e-30..1e30; counts 0..u32::MAX; rates incl. 8000, 8001, 192000 and random. Non-trivial = every configuration; distinct by request text.",
+        "exhaustive": False,
+        "assumptions": ["documented domain: finite values, AGC min <= max, rate >= 8000; DC-blocker length <= 100 symbols and rate <= 192000 to bound memory/time"],
+        "spec_ops": {"spec.c17.run": "cfg.run"},
+    },
 }
